@@ -7,6 +7,7 @@ fn main() {
         "views" => sv::views::main(&args[2..]),
         "streams" => sv::streams::main(&args[2..]),
         "terms" => sv::terms::main(&args[2..]),
+        "mem" => sv::mem::main(&args[2..]),
         _ => {
             eprintln!("unknown family {fam}");
             std::process::exit(2);
